@@ -85,6 +85,12 @@ Proof.
   apply (c14_shuffle_reaches_all_partial 3 [2; 0; 1]); [lia|].
   eapply perm_trans; [apply perm_swap|apply perm_skip; apply perm_swap].
 Qed.
+Example ex_reaches_gen : exists rs, length rs = 2%nat /\ Forall (fun r => 0 <= r < 2 ^ 64) rs
+                                /\ shuffle_script rs [7; 7; 9] = Some [9; 7; 7].
+Proof.
+  apply (c14_shuffle_reaches_all Z [7; 7; 9] [9; 7; 7]); [|cbn; lia].
+  eapply perm_trans; [apply perm_swap|apply perm_skip; apply perm_swap].
+Qed.
 Example ex_old_period : state_after (2 ^ 2 + 5) 42 mod 2 ^ Z.of_nat 2 = state_after 5 42 mod 2 ^ Z.of_nat 2.
 Proof. apply (c14_old_low_bits_periodic 2 5 42). lia. Qed.
 Example ex_fair4 : exists seed, In seed (seeds_for 4) /\ 0 <= seed < 2 ^ 64 /\ shuffle_rng seed (zseq 4) = Some [1; 0; 2; 3].
